@@ -938,6 +938,67 @@ def extract_flags():
         _plain("pauseProducing", "self.transport.pauseProducing()")
         and _plain("resumeProducing", "self.transport.resumeProducing()")
         and _plain("connectionLost", "self._disconnected.fire(self)") and whole)
+    # C01 (round 8): the glue around the key agreement.
+    #  * wormhole.create() hands the application id it was given, untouched, to Boss; Boss hands its _appid to Key
+    #    and RendezvousConnector; Key to _SortedKey
+    #  * _SortedKey.build_pake feeds exactly to_bytes(code) and idSymmetric=to_bytes(self._appid) to SPAKE2
+    #  * the timing recorder only stores what it is given (it gets the live server message from ws_message)
+    from wormhole import wormhole as _c01w, _key as _c01key, timing as _c01timing
+
+    def _rebinds(fn, param):
+        for node in ast.walk(fn):
+            targets = []
+            if isinstance(node, ast.Assign):
+                targets = node.targets
+            elif isinstance(node, (ast.AugAssign, ast.AnnAssign, ast.NamedExpr, ast.For, ast.comprehension)):
+                targets = [node.target]
+            elif isinstance(node, ast.With):
+                targets = [i.optional_vars for i in node.items if i.optional_vars is not None]
+            for t in targets:
+                if any(isinstance(n, ast.Name) and n.id == param for n in ast.walk(t)):
+                    return True
+        return False
+
+    def _is_self_attr(node, attr):
+        return isinstance(node, ast.Attribute) and node.attr == attr and isinstance(node.value, ast.Name) and node.value.id == "self"
+    cfn = ast.parse(textwrap.dedent(inspect.getsource(_c01w.create))).body[0]
+    boss_calls = [n for n in ast.walk(cfn) if isinstance(n, ast.Call) and _call_name(n) == "Boss"]
+    bw = ast.parse(textwrap.dedent(inspect.getsource(_c01boss.Boss._build_workers))).body[0]
+    key_calls = [n for n in ast.walk(bw) if isinstance(n, ast.Call) and _call_name(n) == "Key"]
+    rc_calls = [n for n in ast.walk(bw) if isinstance(n, ast.Call) and _call_name(n) == "RendezvousConnector"]
+    kp = ast.parse(textwrap.dedent(inspect.getsource(_c01key.Key.__attrs_post_init__))).body[0]
+    sk_calls = [n for n in ast.walk(kp) if isinstance(n, ast.Call) and _call_name(n) == "_SortedKey"]
+    boss_src = inspect.getsource(_c01boss.Boss)
+    flags["create_passes_appid_unchanged"] = (
+        not _rebinds(cfn, "appid")
+        and len(boss_calls) == 1 and len(boss_calls[0].args) >= 4
+        and isinstance(boss_calls[0].args[3], ast.Name) and boss_calls[0].args[3].id == "appid"
+        and re.search(r"_appid = attrib\(validator=instance_of\(str\)\)", boss_src) is not None
+        and len(key_calls) == 1 and key_calls[0].args and _is_self_attr(key_calls[0].args[0], "_appid")
+        and len(rc_calls) == 1 and len(rc_calls[0].args) >= 2 and _is_self_attr(rc_calls[0].args[1], "_appid")
+        and len(sk_calls) == 1 and sk_calls[0].args and _is_self_attr(sk_calls[0].args[0], "_appid"))
+    bp = ast.parse(textwrap.dedent(inspect.getsource(_fn(_c01key._SortedKey, "build_pake")))).body[0]
+    sp_calls = [n for n in ast.walk(bp) if isinstance(n, ast.Call) and _call_name(n) == "SPAKE2_Symmetric"]
+
+    def _to_bytes_of(node, pred):
+        return (isinstance(node, ast.Call) and _call_name(node) == "to_bytes" and len(node.args) == 1
+                and not node.keywords and pred(node.args[0]))
+    flags["pake_fed_to_bytes_code_and_appid"] = (
+        not _rebinds(bp, "code") and len(sp_calls) == 1 and len(sp_calls[0].args) == 1
+        and _to_bytes_of(sp_calls[0].args[0], lambda a: isinstance(a, ast.Name) and a.id == "code")
+        and [k.arg for k in sp_calls[0].keywords] == ["idSymmetric"]
+        and _to_bytes_of(sp_calls[0].keywords[0].value, lambda a: _is_self_attr(a, "_appid")))
+    tmod = ast.parse(inspect.getsource(_c01timing))
+    tcalls = {}
+    for cls in [n for n in tmod.body if isinstance(n, ast.ClassDef) and n.name in ("Event", "DebugTiming")]:
+        for f in [n for n in cls.body if isinstance(n, ast.FunctionDef)]:
+            tcalls[cls.name + "." + f.name] = sorted({_call_name(n) for n in ast.walk(f) if isinstance(n, ast.Call)})
+    flags["timing_only_records"] = (
+        set(tcalls.get("Event.__init__", ["?"])) <= {"time.time", "float"}
+        and set(tcalls.get("Event.detail", ["?"])) <= {"_details.update"}
+        and set(tcalls.get("Event.finish", ["?"])) <= {"time.time", "float", "self.detail"}
+        and set(tcalls.get("DebugTiming.add", ["?"])) <= {"Event", "_events.append"}
+        and not any(isinstance(n, ast.FunctionDef) for n in tmod.body))      # no module-level helpers that could touch details
     return flags
 
 
